@@ -13,14 +13,13 @@ COMMON_ASSUMPTIONS = [
 import os
 VERIF = os.path.dirname(os.path.dirname(os.path.abspath(__file__)))
 
-CLAIMED = ["C01", "C02", "C03", "C05", "C06", "C09", "C10", "C11", "C12", "C15", "C16", "C17", "C20"]
+CLAIMED = ["C01", "C02", "C03", "C05", "C06", "C09", "C10", "C11", "C12", "C15", "C16", "C17", "C18", "C20"]
 NOT_APPLICABLE = {
     "C04": "the kernels dijkstra()/dijkstra_basic() keep a BinaryHeap whose order depends on the weights: with ONE symbolic weight on a constant 3-node topology CBMC's symbolic execution did not finish in 20 minutes; with constant weights a run takes 78 s but nothing is left for the solver to decide; the public wrappers (all_pairs, multi_source) additionally contain the rayon branch, whose catch_unwind intrinsic crashes kani-compiler 0.68 (harness kept unregistered in harness/dijkstra_ac.rs)",
     "C07": "schedules / threads are not expressible in Kani/CBMC (no model of rayon's worker threads, work stealing or atomics-based deques; kani-compiler 0.68 crashes on rayon's catch_unwind intrinsic); a sequential stub of the parallel iterator would assume the property instead of checking it",
     "C08": "same kernels as C04: target / cutoff / first_only / with_paths harnesses exist (harness/dijkstra_ac.rs) but do not finish symbolic execution with a symbolic weight; all_pairs / multi_source / get_all_shortest_paths_involving cannot be compiled by Kani (rayon branch)",
     "C13": "termination of Louvain's `while nb_moves > 0` / `while improvement` loops is the property; bounded model checking can only confirm a fixed unwinding, and one sweep re-enters modularity -> get_subgraph -> new_from_nodes_and_edges per community over floats, measured beyond the memory cap (three add_edge calls already exceed 24 GB)",
     "C14": "the weight clause quantifies over all f64 bit patterns through Display (Grisu/Dragon) and str::parse::<f64> (Eisel-Lemire: 64x64->128 multiplications on symbolic digits) and the name clause over quick-xml's escaper on buffers whose length depends on the symbolic bytes; neither can be bit-blasted within reach and no non-circular contract stub exists",
-    "C18": "needs at least two power iterations of float division / sqrt over a HashMap<T, f64> plus powf (nondeterministic in Kani); float-equivalence queries of this size did not finish in this sandbox (two symbolic divisions on each side already exceed 25 minutes, see C06/C16); the multi-edge panic clause is covered by C20",
     "C19": "whole-string symbolic execution of quick-xml's reader (runtime CPU-feature detection in memchr, byte-scanning loops over symbolic buffers) is out of reach, and the event loop's input-derived unwraps sit inside one monolithic function that cannot be driven without the parser",
 }
 
@@ -237,6 +236,24 @@ PROPS["C17"] = {
     "outside": "whole louvain_partitions runs (C13: out of reach); other hash-order-dependent sites are not enumerated; fast_gnp_random_graph has no hash iteration (its kernels are covered by C16); the claim is kernel-level: the tie-breaking site named by the property's anchors",
     "assumptions": ["the shim iterates a map in insertion order, which turns the iteration order into a harness input", "counterexamples are confirmed natively by repeated seeded louvain_partitions calls on tie graphs (cycle, K3,3) in one process: more than one distinct result = reproduced"],
     "jobs": 2,
+}
+
+# ---------------------------------------------------------------- C18
+ATTACH["C18"] = {"ac": [("src/graph/mod.rs", "model.rs"), ("src/algorithms/centrality/eigenvector.rs", "eigenvector_ac.rs")]}
+PROPS["C18"] = {
+    "harnesses": [
+        H(n, "ac", w, tier=tr, covers=[], bounds="2 nodes, max_iter <= 2, unwind 6", timeout=1500)
+        for (n, w, tr) in [
+            ("c18_d_edge_w_i1", "directed edge 2->0 with symbolic integer weight, weighted, max_iter 1, tolerance in {1e-6,1e-2}: Ok => one entry per node, non-negative, unit norm; Err => PowerIterationFailedConvergence", "quick"),
+            ("c18_d_edge_w_i2", "same with max_iter 2", "quick"),
+            ("c18_u_edge_w_i2", "undirected edge, weighted, max_iter 2", "quick"),
+            ("c18_u_isolated_i1", "two isolated nodes, max_iter 1", "quick"),
+            ("c18_d_recip_w_i2", "reciprocal directed edges with different weights, max_iter 2", "thorough"),
+        ]
+    ],
+    "outside": "graphs with more than 2 nodes; max_iter > 2; the approximate-fixed-point clause (one further step moves the vector by at most the tolerance-derived bound); tolerances other than 1e-6 / 1e-2; f64::powf(x, 2.0) stubbed as x*x",
+    "assumptions": ["f64::powf(x, 2.0) is stubbed as x*x", "graphs are produced by build_direct"],
+    "jobs": 5,
 }
 
 # ---------------------------------------------------------------- C20
